@@ -168,6 +168,6 @@ package api
 //@ func type:SubsetNodesFn
 //@   modifies *
 //@   ensures [assumed] framework.pluginFrame()
-//@   ensures [assumed] result1 == nil ==> forall a int :: 0 <= a && a < len(result0) ==> forall i int :: 0 <= i && i < len(result0[a]) ==> result0[a][i] != nil && (exists j int :: 0 <= j && j < len(nodeSet) && old(nodeSet[j]) == result0[a][i])
-//@   note assumed (was assumed at the wrapper Session.SubsetNodesFn before): every registered subset function (topology plugin) returns non-nil nodes of the node set it is given; plugin frame
+//@   ensures [assumed] old(framework.allCand(nodeSet)) && result1 == nil ==> framework.subsetsOK(result0)
+//@   note assumed (was assumed at the wrapper Session.SubsetNodesFn before): every registered subset function (topology plugin) returns subsets of the node set it is given; plugin frame. The subset property is stated SCHEMATICALLY, for the uninterpreted node predicate framework.candNode (a declared symbol, constrained only inside the unit (*Session).SubsetNodesFn): "if every node handed in satisfies candNode, so does every node of every returned set". For an unconstrained predicate this is exactly `returned nodes are nodes of the input set` (take candNode := membership in the input); the form keeps existentials out of the wrapper's loop obligations
 //@ end
